@@ -393,7 +393,73 @@ Definition clo_lines (s : st) (j : nat) : list (list Z) :=
   flat_map (fun l => match find_lbl l (clos s) with Some x => [clo_line x] | None => [] end)
            (seq 0 j ++ seq 100 (10 * j)).
 
-Definition run_fuel (ops : list (list Z)) : nat := length (flat_map decode_sched ops) + 4000.
+(* field f of closure c, d when c does not exist *)
+Definition G {A} (f : clo -> A) (d : A) (s : st) (c : nat) : A :=
+  match nth_error (clos s) c with Some x => f x | None => d end.
+(* is the thread executing a client program (as opposed to: inside worker()) *)
+Definition is_client_after (a : after) : bool := match a with AWorker _ _ => false | _ => true end.
+Definition is_client (p : pc) : bool :=
+  match p with
+  | CAt _ | CXWait | CDtor | CDone => true
+  | Join _ _ _ a | SWait _ _ a | SFin a => is_client_after a
+  | _ => false
+  end.
+
+(* ---------- a bound on the length of every run (proved in PoolTerm.v: every step decreases mu) ---------- *)
+Local Open Scope nat_scope.
+Section Weights.
+Context (K : nat).   (* number of threads *)
+
+Definition actw (a : act) : nat :=
+  match a with ASub _ _ => 8 | AStop => 4 * K + 20 | AQry _ => 2 | ACurHop _ => 12 end.
+Fixpoint bw (r : body) : nat := match r with [] => 0 | a :: r' => actw a + bw r' end.
+Definition opw (o : cop) : nat := match o with OSub _ _ b => 8 + bw b | OStop => 4 * K + 20 | OWorker => 4 end.
+Fixpoint progw (p : list cop) : nat := match p with [] => 0 | o :: r => opw o + progw r end.
+Definition endw (i : nat) : nat := if Nat.eqb i 0 then 4 * K + 22 else 0.
+(* weight of next_client i prog *)
+Definition ncw (i : nat) (prog : list cop) : nat :=
+  match prog with [] => if Nat.eqb i 0 then 4 * K + 21 else 0 | _ => 1 + progw prog + endw i end.
+(* weight of pc_after i a *)
+Definition aw (i : nat) (a : after) : nat :=
+  match a with AClient prog => ncw i prog | ADtor => 0 | AWorker true _ => 0 | AWorker false r => 2 + bw r end.
+
+Definition pcw (i : nat) (p : pc) : nat :=
+  match p with
+  | CAt prog => 1 + progw prog + endw i
+  | CXWait => 4 * K + 21
+  | CDtor => 4 * K + 20
+  | CDone => 0
+  | WIdle => 2
+  | WSleep => 1
+  | WSub _ _ r => 10 + bw r
+  | WHop _ r => 13 + bw r
+  | WPeek _ r => 14 + bw r
+  | WStop r => 4 * K + 22 + bw r
+  | WQry _ r => 4 + bw r
+  | WExit => 0
+  | Join l _ f a => 2 * length l + 3 + (if f then K + 3 else 0) + aw i a
+  | SWait l _ a => 2 * length l + 4 + aw i a
+  | SFin a => K + 3 + aw i a
+  end.
+End Weights.
+
+(* weight of thread i: its pc, plus (inside worker()) the client program it returns to *)
+Definition tw (s : st) (i : nat) (p : pc) : nat :=
+  let K := length (thrs s) in
+  pcw K i p + (if is_client p then 0 else ncw K i (nth i (cont s) [])).
+
+Fixpoint sumw (f : nat -> pc -> nat) (l : list pc) (from : nat) : nat :=
+  match l with [] => 0 | p :: r => f from p + sumw f r (S from) end.
+Definition clw (s : st) (c : nat) : nat := 3 + bw (length (thrs s)) (G cb [] s c).
+Fixpoint qw (s : st) (l : list nat) : nat := match l with [] => 0 | c :: r => clw s c + qw s r end.
+
+Definition mu (s : st) : nat := sumw (tw s) (thrs s) 0 + qw s (queue s) + tokens s + length (woken s).
+
+Local Open Scope Z_scope.
+
+(* no schedule can make more than mu (init ops) steps, so this fuel never runs out *)
+Definition run_fuel (ops : list (list Z)) : nat := mu (init ops).
+
 
 Definition pool_run (ops : list (list Z)) : list (list Z) :=
   let s0 := init ops in
